@@ -1,15 +1,15 @@
-\* leg A: 3 consecutive exchanges (TC or not), cancellation, late in-order answers, stale UDP duplicates: every caller gets what its own reply demands
+\* leg B generator: 3 consecutive exchanges of any TC-ness, a stale duplicate of a finished exchange's UDP reply arriving during a later one
 SPECIFICATION Spec
 CONSTANTS
   N = 3
   MaxConn = 3
-  MaxResend = 1
+  MaxResend = 0
   MaxTries = 2
-  MaxDup = 2
+  MaxDup = 1
   TcChoices = {TRUE, FALSE}
   Overlap = FALSE
   Burst = 0
-  EnvCancel = TRUE
+  EnvCancel = FALSE
   EnvClose = FALSE
   EnvDup = TRUE
   Matching = FALSE
@@ -17,7 +17,7 @@ CONSTANTS
   IdleOnCancel = FALSE
   ForgetKeepsIdle = FALSE
   DupAccepted = FALSE
-  WithHist = FALSE
-  Export = FALSE
-INVARIANTS TypeOK C17SeqInv BusyNotIdle
+  WithHist = TRUE
+  Export = TRUE
+INVARIANTS Emit
 CHECK_DEADLOCK FALSE
